@@ -9,9 +9,9 @@
    A segment = Reset, the sequential setup calls of thread 0, the concurrent calls, the probes.
    Silent step Lin(t): the next atomic A-action of t's pending operation takes effect somewhere
    between its Call and its Ret (compound operations - readdirplus that did not fit, batch_forget -
-   are sequences of atomic actions, the weaker reading). Blocking mode: an event that no
-   explanation allows stops the search; the POSTCONDITION then prints <<"STUCK", index>> with
-   the furthest event index reached (register 1). Run with -workers 1.
+   are sequences of atomic actions, the weaker reading). Blocking mode per segment: an event
+   that no explanation allows has no successor; the POSTCONDITION prints
+   <<"REJECTED", {<<segment start, furthest event index reached>>, ...}>>. Run with -workers 1.
 
    Obligations:
      * every lookup / readdirplus entry returns the file's one number (learned at first sight);
@@ -25,51 +25,75 @@ EXTENDS PtConc, Naturals, Sequences, FiniteSets, TLC, Json, IOUtils
 Rec == ndJsonDeserialize(IOEnv.TRACE)
 N == Len(Rec)
 TIds == 0..8
+SegStarts == {i \in 1..N : Rec[i].e = "Reset"}
 
 VARIABLES l,      \* index of the next event
           refs,   \* A: lookup references held on the file
           num,    \* A: the file's inode number ("" = not yet observed)
           pend,   \* per client thread: the operation in flight and its remaining atomic actions
-          ph      \* "run" | "rc" | "ga" | "end": probe sequencing within a segment
-vars == <<l, refs, num, pend, ph>>
+          ph,     \* "run" | "rc" | "ga" | "end": probe sequencing within a segment
+          sg,     \* index of the Reset event of the current segment (0 before the first)
+          mode    \* "ok": explaining the segment; "skip": passing over it (see below)
+vars == <<l, refs, num, pend, ph, sg, mode>>
+
+(* One TLC run judges all segments independently. At every Reset the search forks: mode "ok"
+   tries to explain the segment event by event (blocking: an event no explanation allows has no
+   successor); mode "skip" walks over the segment's events unconditionally so that the following
+   segments are reached whatever happens to this one. A segment is ACCEPTED iff its "ok" track
+   reaches the next Reset (or the end of the file) with every obligation met: its Reset index is
+   then added to register 2. The POSTCONDITION prints the rejected segments. With
+   Trace_PtConc_diag.cfg (state constraint Track; used on the rejected segments only, it is
+   costly) register 1 maps every segment to the furthest event index its "ok" track reached,
+   i.e. the first event that no explanation allows. -workers 1. *)
 
 Idle == [st |-> "idle", op |-> "", todo |-> <<>>, val |-> ""]
 AllIdle == \A t \in TIds : pend[t].st = "idle"
-Max(a, b) == IF a > b THEN a ELSE b
+EndOK == ph = "end" \/ (ph = "run" /\ num = "")     \* probes done (or no number was ever returned)
 
-Init == /\ l = 1 /\ refs = 0 /\ num = "" /\ ph = "end"
+Init == /\ l = 1 /\ refs = 0 /\ num = "" /\ ph = "end" /\ sg = 0 /\ mode = "skip"
         /\ pend = [t \in TIds |-> Idle]
-        /\ TLCSet(1, 1)
+        /\ TLCSet(1, [s \in SegStarts |-> 0])
+        /\ TLCSet(2, {})
 
 Ev(e) == l <= N /\ Rec[l].e = e
+Mark == sg = 0 \/ TLCSet(2, TLCGet(2) \cup {sg})
 
+\* the segment that ends here is accepted (mode "ok") or was passed over; the next one begins on both tracks
 Reset == /\ Ev("Reset")
-         /\ AllIdle
-         /\ ph = "end" \/ (ph = "run" /\ num = "")
-         /\ l' = l + 1 /\ refs' = 0 /\ num' = "" /\ ph' = "run"
-         /\ UNCHANGED pend
+         /\ \/ mode = "skip"
+            \/ mode = "ok" /\ AllIdle /\ EndOK /\ Mark
+         /\ l' = l + 1 /\ sg' = l /\ refs' = 0 /\ num' = ""
+         /\ pend' = [t \in TIds |-> Idle]
+         /\ \/ mode' = "ok" /\ ph' = "run"
+            \/ mode' = "skip" /\ ph' = "end"
+
+SkipEv == /\ mode = "skip"
+          /\ l <= N /\ Rec[l].e # "Reset"
+          /\ l' = l + 1 /\ UNCHANGED <<refs, num, pend, ph, sg, mode>>
 
 Call == /\ Ev("Call")
-        /\ ph = "run"
+        /\ mode = "ok" /\ ph = "run"
         /\ LET r == Rec[l] IN
            /\ r.t \in TIds
            /\ pend[r.t].st = "idle"
            /\ r.op \in {"lookup", "forget", "rdp", "getattr"}
            /\ pend' = [pend EXCEPT ![r.t] = [st |-> "inv", op |-> r.op, todo |-> Plan(r.op, r.cnts, r.fit), val |-> ""]]
-        /\ l' = l + 1 /\ UNCHANGED <<refs, num, ph>>
+        /\ l' = l + 1 /\ UNCHANGED <<refs, num, ph, sg, mode>>
 
 \* silent: the next atomic action of t's operation takes effect
 \* (getattr in flight: C09 only demands that the number is usable while referenced; that it stops
 \*  resolving at count 0 is C08's obligation, so at refs = 0 either outcome is accepted here)
-Lin(t) == /\ pend[t].st = "inv"
+Lin(t) == /\ mode = "ok"
+          /\ pend[t].st = "inv"
           /\ pend[t].todo # <<>>
           /\ LET a == Head(pend[t].todo) IN
              /\ refs' = Apply(refs, a)
              /\ \E v \in (IF a.a # "get" THEN {pend[t].val} ELSE IF RefsUsable(refs) THEN {"ok"} ELSE {"ok", "ebadf"}) :
                   pend' = [pend EXCEPT ![t].todo = Tail(@), ![t].val = v]
-          /\ UNCHANGED <<l, num, ph>>
+          /\ UNCHANGED <<l, num, ph, sg, mode>>
 
 Ret == /\ Ev("Ret")
+       /\ mode = "ok"
        /\ LET r == Rec[l] IN
           /\ r.t \in TIds
           /\ pend[r.t].st = "inv"
@@ -82,9 +106,10 @@ Ret == /\ Ev("Ret")
                [] r.op = "forget" -> r.kind = "none" /\ UNCHANGED num
                [] r.op = "getattr" -> r.val = pend[r.t].val /\ UNCHANGED num
           /\ pend' = [pend EXCEPT ![r.t] = Idle]
-       /\ l' = l + 1 /\ UNCHANGED <<refs, ph>>
+       /\ l' = l + 1 /\ UNCHANGED <<refs, ph, sg, mode>>
 
 Probe == /\ Ev("Probe")
+         /\ mode = "ok"
          /\ AllIdle
          /\ LET r == Rec[l] IN
             /\ r.ino = num
@@ -101,21 +126,22 @@ Probe == /\ Ev("Probe")
                       /\ r.n = refs
                       /\ refs' = 0
                  [] OTHER -> FALSE
-         /\ l' = l + 1 /\ UNCHANGED <<num, pend>>
+         /\ l' = l + 1 /\ UNCHANGED <<num, pend, sg, mode>>
 
 Done == /\ l = N + 1
-        /\ AllIdle
-        /\ ph = "end" \/ (ph = "run" /\ num = "")
-        /\ PrintT(<<"ACCEPTED", N>>)
-        /\ l' = l + 1 /\ refs' = 0 /\ num' = "" /\ ph' = "end"
-        /\ UNCHANGED pend
+        /\ \/ mode = "skip"
+           \/ mode = "ok" /\ AllIdle /\ EndOK /\ Mark
+        /\ PrintT(<<"CONSUMED", N>>)
+        /\ l' = l + 1 /\ refs' = 0 /\ num' = "" /\ ph' = "end" /\ sg' = 0 /\ mode' = "skip"
+        /\ pend' = [t \in TIds |-> Idle]
 
-Next == Reset \/ Call \/ Ret \/ Probe \/ Done \/ \E t \in TIds : Lin(t)
+Next == Reset \/ SkipEv \/ Call \/ Ret \/ Probe \/ Done \/ \E t \in TIds : Lin(t)
 Spec == Init /\ [][Next]_vars
 
-\* furthest event index for which some explanation of all earlier events exists
-Track == TLCSet(1, Max(TLCGet(1), l))
-Post == IF TLCGet(1) < N + 2
-        THEN PrintT(<<"STUCK", TLCGet(1), IF TLCGet(1) <= N THEN Rec[TLCGet(1)] ELSE [e |-> "EOF"]>>)
-        ELSE TRUE
+\* state constraint (always TRUE): furthest event index reached by the "ok" track of each segment
+Track == IF mode = "ok" /\ sg > 0 /\ TLCGet(1)[sg] < l
+         THEN TLCSet(1, [TLCGet(1) EXCEPT ![sg] = l])
+         ELSE TRUE
+Rejected == SegStarts \ TLCGet(2)
+Post == PrintT(<<"REJECTED", {<<s, TLCGet(1)[s]>> : s \in Rejected}>>)
 =============================================================================
